@@ -21,8 +21,14 @@ try:
         p = sh('./check %s --tier %s' % (pid, tier), cwd=V)
         lines = [l for l in p.stdout.splitlines() if l.startswith(('VIOLATION', 'obligation failed', pid + ':', 'UNDECIDED', 'KNOWN'))]
         res[pid] = p.returncode
+        meta.setdefault('detected', {})[pid + ':' + tier] = {'exit': p.returncode, 'failed_obligations': [l.split('obligation failed: ')[1] for l in lines if l.startswith('obligation failed')][:4]}
         print('== %s on seeded/%s: exit %d' % (pid, sid, p.returncode))
         print('\n'.join(lines[:12]))
 finally:
     sh('git -C /repo checkout -- .')
+notes = os.path.join(d, 'notes.txt')
+if os.path.exists(notes) and 'needs' not in meta:
+    meta['notes'] = open(notes).read()[:1500]
+meta['ran'] = 'tools/run_seeded.py %s (git -C /repo apply patch.diff; ./check <ID> --tier <tier>; git -C /repo checkout -- .)' % sid
+json.dump(meta, open(os.path.join(d, 'meta.json'), 'w'), indent=1)
 print(json.dumps(res))
